@@ -79,13 +79,33 @@ impl ByProducts {
         mut self,
         other_fields: BTreeMap<String, String>,
     ) -> Self {
-        self.other_fields = other_fields;
+        self.other_fields = BTreeMap::new();
+        for (key, value) in other_fields {
+            self = self.set_other_field(key, value);
+        }
         self
     }
 
-    /// Insert another field
+    /// Insert another field.
+    ///
+    /// On the wire all byproducts share one namespace, so the names of the
+    /// typed members (`stdout`, `stderr`, `return-value`) cannot be used
+    /// for an additional field: setting one of them sets that member.
     pub fn set_other_field(mut self, key: String, value: String) -> Self {
-        self.other_fields.insert(key, value);
+        match key.as_str() {
+            "stdout" => self.stdout = Some(value),
+            "stderr" => self.stderr = Some(value),
+            "return-value" => match value.parse::<i32>() {
+                Ok(v) => self.return_value = Some(v),
+                Err(_) => log::warn!(
+                    "byproduct 'return-value' must be an integer, ignoring {:?}",
+                    value
+                ),
+            },
+            _ => {
+                self.other_fields.insert(key, value);
+            }
+        }
         self
     }
 
